@@ -200,15 +200,15 @@ def gen_c02_incoming_churn(r):
 def gen_c02_late_handshake(r):
     """An inbound seeder with exclusive pieces sends its handshake only after a pause, while a
     dialled seeder is being downloaded from (the client's main loop is busy with other events
-    between accept and first byte); one run in three lets the pause span a 10 s choke rotation."""
+    between accept and first byte). The pause stays at a few seconds: a client is free to give up on
+    a connection that does not shake hands for a long time."""
     g, n = gen_geometry(r)
     ex = [r.random() < 0.5 for _ in range(n)]
     if not any(ex):
         ex[r.randrange(n)] = True
-    long = r.random() < 0.34
     peers = [dict(port=7001, id="-FK0000-abcdefghijkl", incoming=False, have=[not x for x in ex], seed=r.getrandbits(32), chunk=r.choice([0, 1000]), latency_ms=r.choice([20, 60]), unchoke_delay_ms=0),
              dict(port=7002, id="-FK0001-abcdefghijkl", incoming=True, have=ex, seed=r.getrandbits(32), chunk=0, latency_ms=0, unchoke_delay_ms=0, connect_delay_ms=r.choice([150, 400]),
-                  handshake_delay_ms=r.choice([10500, 12000]) if long else r.choice([200, 600, 1500]))]
+                  handshake_delay_ms=r.choice([200, 600, 1500, 3000]))]
     g.update(peers=peers, tracker_faults=[], tracker_port=8000, timeout_s=90, stall_s=15)
     return g
 
